@@ -37,6 +37,24 @@ def make_pool(seed, n):
                 {'n%03d' % i: i for i in range(40)},
                 {c * 130: ord(c) for c in 'abcdefgh'}):
         ops.append({'op': 'encode_table', 'v': tbl, 'fresh_always': True})
+    # frames nested 70, 130 and 200 deep, decoded (several threads doing so
+    # at once: whatever is counted per nesting level must be counted per
+    # call, not per process)
+    import struct as _st
+    for depth in (70, 130, 200):
+        for via in ('F', 'A'):
+            v = b'V'
+            for i in range(depth):
+                if via == 'A' and i % 2:
+                    v = b'A' + _st.pack('>I', len(v)) + v
+                else:
+                    inner = b'\x01k' + v
+                    v = b'F' + _st.pack('>I', len(inner)) + inner
+            tab = b'\x01d' + v
+            table = _st.pack('>I', len(tab)) + tab
+            p_ = _st.pack('>HHH', 50, 10, 0) + b'\x01q' + b'\x00' + table
+            ops.append({'op': 'decode', 'data': _st.pack('>BHI', 1, 1, len(
+                p_)) + p_ + b'\xce', 'fresh_always': depth == 200})
     # deep values (nesting 24..32), encoded and decoded
     for depth in (24, 28, 32):
         deep = {'d': gv.deep_chain(rnd, depth - 1)}
